@@ -287,7 +287,7 @@ func (c *Ctx) AnalyzeSpawnLoops(s *ir.Step) (*ssa.Function, *ir.Analysis) {
 	if fn == nil {
 		return nil, nil
 	}
-	return fn, c.analyzeLoopsFrom(fn, st, "spawn@"+c.W.Pos(s.Pos()))
+	return fn, c.analyzeLoopsFrom(fn, st, "spawn@"+c.W.Pos(s.Pos())+"@"+s.Chain)
 }
 
 // AnalyzeSpawn analyses the function started by a go step.
@@ -296,7 +296,7 @@ func (c *Ctx) AnalyzeSpawn(s *ir.Step) (*ssa.Function, *ir.Analysis) {
 	if fn == nil {
 		return nil, nil
 	}
-	key := "spawn@" + c.W.Pos(s.Pos())
+	key := "spawn@" + c.W.Pos(s.Pos()) + "@" + s.Chain
 	return fn, c.AnalyzeFrom(fn, st, key)
 }
 
